@@ -241,3 +241,50 @@ func OntCrossMsgCached(height uint32, root [32]byte, signers []OntSigner, cache 
 	}
 	return sink.Bytes()
 }
+
+// ---------------------------------------------------------------------------------------------
+// layout builders: the listed keys and the signatures are independent ordered lists.
+
+// OntSig is one element of SigData: a signature by By (over the message, or over another message when Bad).
+type OntSig struct {
+	By  *polyenv.Acct
+	Bad bool
+}
+
+// OntCrossMsgLayout builds CrossChainMsg ++ bookkeepers where `keys` is the listed bookkeeper order and `sigs`
+// the SigData order; neither needs to correspond to the other.
+func OntCrossMsgLayout(height uint32, root [32]byte, keys []*polyenv.Acct, sigs []OntSig) (raw []byte, hash []byte, sigData [][]byte) {
+	m := &otypes.CrossChainMsg{Version: 0, Height: height, StatesRoot: ocommon.Uint256(root)}
+	h := m.Hash()
+	for _, s := range sigs {
+		m.SigData = append(m.SigData, ontSign(s.By, h[:], s.Bad))
+	}
+	sink := ocommon.NewZeroCopySink(nil)
+	m.Serialization(sink)
+	sink.WriteVarUint(uint64(len(keys)))
+	for _, k := range keys {
+		sink.WriteVarBytes(keypair.SerializePublicKey(k.Pub))
+	}
+	return sink.Bytes(), h[:], m.SigData
+}
+
+// OntHeaderLayout is OntHeader with independent bookkeeper / signature lists.
+func OntHeaderLayout(height uint32, peers []*polyenv.Acct, salt uint64, keys []*polyenv.Acct, sigs []OntSig) []byte {
+	h := &otypes.Header{Version: 0, Timestamp: 1600000000 + height, Height: height, ConsensusData: salt,
+		ConsensusPayload: OntPayload(peers, 0)}
+	hash := h.Hash()
+	for _, k := range keys {
+		h.Bookkeepers = append(h.Bookkeepers, k.Pub)
+	}
+	for _, s := range sigs {
+		h.SigData = append(h.SigData, ontSign(s.By, hash[:], s.Bad))
+	}
+	sink := ocommon.NewZeroCopySink(nil)
+	h.Serialization(sink)
+	return sink.Bytes()
+}
+
+// OntVerify reports whether sig is a valid signature of k over hash (independent use of ontology-crypto).
+func OntVerify(k *polyenv.Acct, hash, sig []byte) bool {
+	return signature.Verify(k.Pub, hash, sig) == nil
+}
